@@ -36,6 +36,7 @@ func checkC03(c *Ctx) (string, error) {
 	checkSliceToArrayPointer(c, p)
 	checkTypeAssertTemplate(c, p)
 	checkNilDerefSites(c, w)
+	checkNullPointerIsValid(c, p)
 
 	// ---------------- R03.7
 	checkNarrowBeforeCheck(c, p)
